@@ -2,10 +2,13 @@
    (a) table cases: the (constraint, parameter) table of Model/Constraints.v against
        tensorly.tenalg.proximal.validate_constraints called for every `order`, compared EXACTLY;
    (b) trace cases: the loop skeleton of constrained_parafac executed on provenance tags against the
-       provenance of the factors really returned (which recorded operator call produced them). *)
-From Coq Require Import List Arith ZArith QArith Qabs Bool.
+       provenance of the factors really returned (which recorded operator call produced them);
+   (f) operator calls recorded INSIDE real runs (initialisation and ADMM iterations of constrained_parafac, admm on its own):
+       the operator family of the end-to-end theorems (Model/ConstraintsOps.v op_gen, here at Qops) executed on the recorded
+       input against the recorded output. *)
+From Coq Require Import List Arith ZArith QArith Qabs Qround Bool.
 From TLV Require Import Base.PyList Base.Tensor Corr.Common.
-From TLV Require Import Model.Constraints.
+From TLV Require Import Model.Constraints Base.Ops Model.Prox Model.ConstraintsOps.
 Import ListNotations.
 
 (* Python values used as parameters: bool / int / float (None inside lists is the `None` of option) *)
@@ -131,13 +134,78 @@ Definition feasb (k : kind) (p : pv) (rows : list (list Q)) : bool :=
   | _ => true
   end.
 
+(* (f) the operators of the eight hard kinds on the recorded calls.  op_gen at Qops is the same term as op_c12 of the end-to-end
+   theorems (Proofs/ConstraintsProofsFeasible.v: op_c12_is_op_gen).  aux: the recorded value of tl.norm (normalized_sparsity).
+   Comparison as in Corr/C12.v (definitions transcribed from there): exact for clip and for hard thresholding without a tie at the
+   cut (with a tie: any valid choice among the tied entries), toleranced |a-b| <= atol + rtol(|a|+|b|) for the others; for
+   unimodality every candidate peak whose exact score is within eps of the minimum is accepted. *)
+Definition QM := list (list Q).
+Definition pv_n (p : pv) : nat := match p with PBool b => if b then 1 else 0 | PInt z => Z.to_nat z | PFloat q => Z.to_nat (Qfloor q) end.
+Definition model_op (aux : Q) (k : kind) (p : pv) (rows : QM) : QM :=
+  op_gen Qops (fun _ => aux) pv_q pv_n (fun _ _ x => x) k p rows.
+
+Fixpoint rows_close (atol rtol : Q) (a b : QM) : bool :=
+  match a, b with
+  | [], [] => true
+  | x :: a', y :: b' => q_list_close atol rtol x y && rows_close atol rtol a' b'
+  | _, _ => false
+  end.
+Definition all2 {A B} (f : A -> B -> bool) (a : list A) (b : list B) : bool :=
+  Nat.eqb (length a) (length b) && forallb (fun p => f (fst p) (snd p)) (combine a b).
+Definition same_shape (a b : QM) : bool := all2 (fun x y : list Q => Nat.eqb (length x) (length y)) a b.
+Definition norm_ok (s : Q) (v : list Q) : bool :=
+  let ss := sumsq Qops v in
+  Qle_bool 0 s && Qle_bool (Qabs (Qred (s * s - ss))) (Qred (ss * (1 # 1152921504606846976))).
+Definition ht_tie (k : nat) (v : list Q) : bool :=
+  let vx := combine v (hard_thresholding Qops k v) in
+  existsb (fun a : Q * Q => existsb (fun b : Q * Q =>
+     fnz Qops (snd a) && negb (fnz Qops (snd b)) && Qeq_bool (Qabs (fst a)) (Qabs (fst b))) vx) vx.
+Definition uni_col_ok (atol rtol eps gmax : Q) (col impl : list Q) : bool :=
+  let d := uni_difference gmax (uni_scores Qops col) in
+  let dmin := nth (argmin Qops d) d 0 in
+  existsb (fun i => Qle_bool (nth i d 0) (Qred (dmin + eps)) && q_list_close atol rtol (uni_assemble Qops i col) impl)
+          (seq 0 (length col)).
+Definition uni_ok (atol rtol eps : Q) (rows out : QM) : bool :=
+  let cols := cols_of Qops rows in
+  let scs := map (uni_scores Qops) cols in
+  let gmax := match concat (map snd scs) with [] => 0 | x :: r => maxl Qops x r end in
+  same_shape rows out && all2 (uni_col_ok atol rtol eps gmax) cols (cols_of Qops out).
+(* unimodality_prox decides its peak candidates by `tensor - fit >= 0` on ROUNDED fits: where an entry equals its monotone fit
+   exactly (every entry of a locally monotone stretch) the floating-point flag is rounding noise, and with it the selected index.
+   A column with such an entry (margin <= tol) is ill-conditioned for the selection: there the output only has to be the column
+   assembled at SOME index (increasing fit before it, the entry itself, decreasing fit after it). *)
+Definition uni_ill (tol : Q) (col : list Q) : bool :=
+  let inc := monotone_inc Qops col in let dec := monotonicity_prox Qops true col in
+  existsb (fun t : Q * (Q * Q) => Qle_bool (Qabs (fst t - fst (snd t))) tol || Qle_bool (Qabs (fst t - snd (snd t))) tol)
+          (combine col (combine inc dec)).
+Definition uni_col_weak (atol rtol : Q) (col impl : list Q) : bool :=
+  existsb (fun i => q_list_close atol rtol (uni_assemble Qops i col) impl) (seq 0 (length col)).
+Definition uni_call_ok (atol rtol : Q) (rows out : QM) : bool :=
+  uni_ok atol rtol (Qred (atol * 1000)) rows out
+  || (same_shape rows out && existsb (uni_ill atol) (cols_of Qops rows)
+      && all2 (uni_col_weak atol rtol) (cols_of Qops rows) (cols_of Qops out)).
+
+Definition call_agree (k : kind) (p : pv) (aux : Q) (rows out : QM) (atol rtol : Q) : bool :=
+  let n := pv_n p in
+  match k with
+  | KNonNeg => rows_close 0 0 (model_op aux k p rows) out
+  | KHardSparsity => same_shape rows out && valid_ht Qops n (concat rows) (concat out)
+                     && (ht_tie n (concat rows) || rows_close 0 0 (model_op aux k p rows) out)
+  | KNormSparsity => norm_ok aux (hard_thresholding Qops n (concat rows))
+                     && (if ht_tie n (concat rows) then same_shape rows out else rows_close atol rtol (model_op aux k p rows) out)
+  | KUnimodal => uni_call_ok atol rtol rows out
+  | KSimplex | KMonotone | KSoftSparsity | KNormalize => rows_close atol rtol (model_op aux k p rows) out
+  | _ => true
+  end.
+
 Inductive case :=
 | CTable (id n : nat) (specs : list (@zspec pv)) (expected : res (list (option (kind * pv))))
 | CTrace (id n : nat) (specs : list (@zspec pv)) (user_init : bool) (n_init : nat) (err_ok : bool) (fixed : list nat)
          (n_outer n_inner : nat) (expected : res (list prov))
 | CAdmm (id n : nat) (specs : list (@zspec pv)) (order n_iter : nat) (expected : res prov)
 | CProx (id n : nat) (specs : list (@zspec pv)) (order : nat) (expected : res prov)
-| CFeas (id : nat) (k : kind) (p : pv) (rows : list (list Q)).
+| CFeas (id : nat) (k : kind) (p : pv) (rows : list (list Q))
+| CCall (id : nat) (k : kind) (p : pv) (aux : Q) (rows out : list (list Q)) (atol rtol : Q).
 
 Definition agree (c : case) : bool :=
   match c with
@@ -146,7 +214,8 @@ Definition agree (c : case) : bool :=
   | CAdmm _ n specs order ni expected => res_eqb prov_eqb (model_admm n specs order ni) expected
   | CProx _ n specs order expected => res_eqb prov_eqb (model_prox n specs order) expected
   | CFeas _ k p rows => feasb k p rows
+  | CCall _ k p aux rows out atol rtol => call_agree k p aux rows out atol rtol
   end.
 Definition ident (c : case) : nat :=
-  match c with CTable i _ _ _ => i | CTrace i _ _ _ _ _ _ _ _ _ => i | CAdmm i _ _ _ _ _ => i | CProx i _ _ _ _ => i | CFeas i _ _ _ => i end.
+  match c with CTable i _ _ _ => i | CTrace i _ _ _ _ _ _ _ _ _ => i | CAdmm i _ _ _ _ _ => i | CProx i _ _ _ _ => i | CFeas i _ _ _ => i | CCall i _ _ _ _ _ _ _ => i end.
 Definition failing := failing_ids agree ident.
